@@ -56,7 +56,7 @@ PROFILES = {
     "param": dict(cont=0.3, guard=0.2, sym=1.0, ifs=0.5, lincyc=0.1),
     "edge": dict(cont=0.2, guard=0.4, sym=0.1, ifs=1.0, lincyc=0.1, edge=True),
     # programs inside the README's documented class by construction (C18); sub-classes are drawn per program
-    "inclass": dict(cont=0.4, guard=0.4, sym=0.15, ifs=0.7, lincyc=0.15, inclass=True),
+    "inclass": dict(cont=0.4, guard=0.4, sym=0.15, ifs=0.7, lincyc=0.15, inclass=True, big=0.2),
 }
 
 
@@ -71,6 +71,7 @@ class Ctx:
         self.cont = False
         self.lincyc = False
         self.draw_fams = {}
+        self.big = False  # "dice" program: large finite domains
         self.uses_counter = False  # the counter variable k is used (initialised to 0)
         self.prefer = set()  # condition variables of the enclosing if (preferred assignment targets in its branches)
         self.atoms = []  # atoms generated so far (for verbatim repetition)
@@ -314,6 +315,10 @@ def atom(c):
 
 
 def _fresh_atom(c):
+    if c.big and len(c.fin) >= 2 and c.b(0.6):
+        f, g = list(c.fin)[:2]
+        tot = int(max(c.fin[f]) + max(c.fin[g]))
+        return ["cmp", ["add", L.var(f), L.var(g)], c.pick(["==", ">=", "<", "<="]), L.num(c.integer(2, max(2, tot - 1)))]
     f = c.pick(list(c.fin))
     D = c.fin[f]
     r = c.integer(0, 9)
@@ -516,7 +521,7 @@ def programs(draw, profile="discrete", uninit_ok=True, min_body=1, max_body=4):
         c.syms = SYM_NAMES[: c.integer(1, 2)]
     nf = c.integer(0 if knobs["guard"] < 1 else 1, 3)
     nn = c.integer(0 if nf else 1, 3)
-    big = c.b(0.08)  # "dice" programs: larger domains (products of value-set sizes beyond the typer's bound of 25)
+    big = c.big = c.b(knobs.get("big", 0.08))  # "dice" programs: larger domains (products of value-set sizes beyond the typer's bound of 25)
     for f in FINITE_NAMES[:nf]:
         c.fin[f] = [F(x) for x in (c.pick(BIG_DOMAINS) if big else c.pick(DOMAINS))]
     c.num = NUMERIC_NAMES[:nn]
@@ -542,6 +547,11 @@ def programs(draw, profile="discrete", uninit_ok=True, min_body=1, max_body=4):
         c.subclasses = sub
         uninit_ok = False
     body = draw_var_stmts(c) + block(c, 0, c.integer(min_body, max_body))
+    if c.big:
+        # the dice are thrown at the start of the iteration, conditions look at their sum
+        for f, D in c.fin.items():
+            if c.b(0.7):
+                body.insert(0, ["assign", f, ["draw", "DiscreteUniform", [L.num(min(D)), L.num(max(D))]]])
     guard = ["true"]
     if c.fin and c.b(knobs["guard"]):
         guard = condition(c, depth=1)
